@@ -205,15 +205,31 @@ func oracleC02raw(x *Exec) []verdict {
 			if !s.Unmet && !executed {
 				out = append(out, verdict{"C02/licensed-step-not-executed(" + f.Status + ")", fmt.Sprintf("every dependency of %s lets it proceed, but it was never executed (final %s)", s.Name, f.Status)})
 			} else if f.Status != want {
-				out = append(out, verdict{"C02/licensed-step-wrong-state(want=" + want + ",got=" + f.Status + ")", fmt.Sprintf("%s: outcome dictates %s, reported %s", s.Name, want, f.Status)})
+				cause := ""
+				if want == "finished" && f.Status == "failed" {
+					cause = "/" + x.failCause(s.Name)
+				}
+				out = append(out, verdict{"C02/licensed-step-wrong-state(want=" + want + ",got=" + f.Status + ")" + cause, fmt.Sprintf("%s: outcome dictates %s, reported %s", s.Name, want, f.Status)})
 			}
 		} else {
 			if executed || created {
-				out = append(out, verdict{"C02/blocked-step-executed", fmt.Sprintf("%s is downstream of a blocking dependency but was executed (final %s)", s.Name, f.Status)})
+				cause := ""
+				for _, dn := range s.Depends {
+					if df := x.finalOf(dn); df != nil && df.Status == "failed" && x.failCause(dn) != "other" {
+						cause = "/dependency-" + x.failCause(dn)
+					}
+				}
+				out = append(out, verdict{"C02/blocked-step-executed" + cause, fmt.Sprintf("%s is downstream of a blocking dependency but was executed (final %s)", s.Name, f.Status)})
 			}
 			ok := (failBlock && f.Status == "canceled") || (skipBlock && f.Status == "skipped")
 			if !ok {
-				out = append(out, verdict{"C02/blocked-step-wrong-state(" + f.Status + ")", fmt.Sprintf("%s is blocked (failed/canceled dep=%v, skipped dep=%v) but reported %s", s.Name, failBlock, skipBlock, f.Status)})
+				cause := ""
+				for _, dn := range s.Depends {
+					if df := x.finalOf(dn); df != nil && df.Status == "failed" && x.failCause(dn) != "other" {
+						cause = "/dependency-" + x.failCause(dn)
+					}
+				}
+				out = append(out, verdict{"C02/blocked-step-wrong-state(" + f.Status + ")" + cause, fmt.Sprintf("%s is blocked (failed/canceled dep=%v, skipped dep=%v) but reported %s", s.Name, failBlock, skipBlock, f.Status)})
 			}
 		}
 	}
@@ -280,7 +296,13 @@ func oracleC03(x *Exec) []verdict {
 			want = 1 + k
 		}
 		if n != want {
-			out = append(out, verdict{fmt.Sprintf("C03/attempt-count(want=%d,got=%d)/%s", want, n, x.Cfg.mode()), fmt.Sprintf("%s (fail first %d, retry limit %d, runnable=%v): executed %d times, expected %d", s.Name, s.Fail, limitOf(s), runnable, n, want)})
+			cause := ""
+			for _, dn := range s.Depends {
+				if df := x.finalOf(dn); df != nil && df.Status == "failed" && x.failCause(dn) != "other" {
+					cause = "/dependency-" + x.failCause(dn)
+				}
+			}
+			out = append(out, verdict{fmt.Sprintf("C03/attempt-count(want=%d,got=%d)%s/%s", want, n, cause, x.Cfg.mode()), fmt.Sprintf("%s (fail first %d, retry limit %d, runnable=%v): executed %d times, expected %d", s.Name, s.Fail, limitOf(s), runnable, n, want)})
 			continue
 		}
 		if runnable && f != nil {
@@ -292,7 +314,11 @@ func oracleC03(x *Exec) []verdict {
 				wantState = "finished"
 			}
 			if f.Status != wantState {
-				out = append(out, verdict{"C03/final-state(want=" + wantState + ",got=" + f.Status + ")/" + x.Cfg.mode(), fmt.Sprintf("%s: after %d attempts expected %s, reported %s", s.Name, n, wantState, f.Status)})
+				cause := ""
+				if wantState == "finished" && f.Status == "failed" {
+					cause = "/" + x.failCause(s.Name)
+				}
+				out = append(out, verdict{"C03/final-state(want=" + wantState + ",got=" + f.Status + ")" + cause + "/" + x.Cfg.mode(), fmt.Sprintf("%s: after %d attempts expected %s, reported %s", s.Name, n, wantState, f.Status)})
 			}
 		}
 	}
